@@ -150,7 +150,7 @@ def preparedLarge (W r n : Nat) : List Nat :=
   let chunkPower := ri.rpw ^ fmtChunkLen
   if chunkPower > n then preparedMedium W r n
   else
-    match buildPowers W n (wordLen W n + 1) [chunkPower] with
+    match buildPowers W n (bitLen n) [chunkPower] with
     | [] => []
     | p :: rest =>
       let xs := splitRest (n / p) rest [(rest, n % p)]
